@@ -237,6 +237,13 @@ def typed_value(path: str, typ: Typ) -> t.Any:
     return TRef(path, typ)
 
 
+def _negative(x: Lin) -> bool:
+    """x < 0 for all non-negative atom values (sizes, unsigned wire fields): index counts from the end."""
+    if x.is_const():
+        return x.const < 0
+    return x.const <= 0 and all(c < 0 for c in x.terms.values())
+
+
 class Evaluator:
     """Expression evaluator.  `fork` is a callback used when a condition must be split."""
 
@@ -616,10 +623,10 @@ class Evaluator:
                 lo, hi = base.lo, base.hi
                 if e.slice.lower is not None:
                     a = self.as_lin(self.eval(e.slice.lower, st), e.slice.lower)
-                    lo = (base.hi + a) if (a.is_const() and a.const < 0) else (base.lo + a)
+                    lo = (base.hi + a) if _negative(a) else (base.lo + a)
                 if e.slice.upper is not None:
                     b = self.as_lin(self.eval(e.slice.upper, st), e.slice.upper)
-                    hi = (base.hi + b) if (b.is_const() and b.const < 0) else (base.lo + b)
+                    hi = (base.hi + b) if _negative(b) else (base.lo + b)
                 return SView(base.src, lo, hi)
             k = self.as_lin(self.eval(e.slice, st), e.slice)
             pos = (base.hi + k) if (k.is_const() and k.const < 0) else (base.lo + k)
